@@ -48,6 +48,10 @@ func schedCase(id int, dir string, c *Case, args []string, run *Run) {
 		for _, p := range procsList {
 			for rep := 0; rep < reps; rep++ {
 				for _, format := range []string{"text", "csv"} {
+					setting := fmt.Sprintf("%v/%s", isRace, p)
+					if hungSettings[setting] >= 2 {
+						continue // established in earlier cases (each with its own crash line); keep the budget
+					}
 					env := []string{"GOMAXPROCS=" + p, "GORACE=halt_on_error=0 exitcode=66 atexit_sleep_ms=0"}
 					out, errb, code := runBinary(bin, dir, env, append([]string{"-format", format}, args...)...)
 					runs++
@@ -64,6 +68,7 @@ func schedCase(id int, dir string, c *Case, args []string, run *Run) {
 						same = 0
 						detail = fmt.Sprintf("bytes differ procs=%s rep=%d format=%s race=%v code=%d", p, rep, format, isRace, code)
 						if code == -2 {
+							hungSettings[setting]++
 							crashed = fmt.Sprintf("hang: benchstat did not exit at GOMAXPROCS=%s format=%s race=%v (limit %v)", p, format, isRace, binTimeout)
 						} else if bytes.Contains(errb, []byte("panic:")) || bytes.Contains(errb, []byte("fatal error:")) {
 							crashed = fmt.Sprintf("benchstat procs=%s format=%s race=%v: %s", p, format, isRace, firstPanicLine(errb))
@@ -279,8 +284,9 @@ type perturbResult struct {
 }
 
 var (
-	hangLimit = 8 * time.Second
-	hangsSeen int
+	hangLimit    = 8 * time.Second
+	hangsSeen    int
+	hungSettings = map[string]int{} // binary kind/GOMAXPROCS -> hangs seen; in-process: "in/<procs>"
 )
 
 // perturb re-runs the real ToTables on the Builder of this case. Completion orders of the
@@ -310,6 +316,9 @@ func perturb(run *Run) perturbResult {
 	defer runtime.GOMAXPROCS(oldProcs)
 	defer debug.SetGCPercent(oldGC)
 	for _, p := range procs {
+		if hungSettings[fmt.Sprintf("in/%d", p)] >= 2 {
+			continue
+		}
 		for _, g := range gcs {
 			pr.settings++
 			for rep := 0; rep < reps; rep++ {
@@ -356,6 +365,7 @@ func perturb(run *Run) perturbResult {
 				case <-time.After(limit):
 					pr.hang = fmt.Sprintf("ToTables did not return within %v at GOMAXPROCS=%d GOGC=%d with %d competing goroutines (in-process, Builder of this case)", limit, p, g, noise)
 					hangsSeen++
+					hungSettings[fmt.Sprintf("in/%d", p)]++
 				}
 				stop.Store(true)
 				wg.Wait()
